@@ -525,6 +525,9 @@ class WebSocket(object):
     def _send_close(self, code, reason):
         """Send a close frame."""
         frame_bytes = Frame.build_close_payload(code, reason)
+        if len(frame_bytes) > 125:
+            # Control frames are limited to 125 bytes (2 byte code + reason)
+            raise ValueError('close reason should be <= 123 bytes')
         try:
             self.session.send(Opcode.CLOSE, frame_bytes)
         except (errors.WebSocketUnavailable, errors.TransportFail):
